@@ -440,6 +440,11 @@ pub struct World {
     /// Only honoured by the child-process receiver: running out of stack kills the process.
     #[serde(default)]
     pub stack_kib: Option<u32>,
+    /// the circuit values this world's receiver deserialises are ALSO handed to a receiver built
+    /// the way a downstream engine builds the library: default cargo features only (no `serde`),
+    /// `cargo build --release` (crate /verif/plain); it gets the values in a flat text encoding
+    #[serde(default)]
+    pub plain_build: bool,
 }
 
 /// The documented panics of both `eval` functions, provoked on a tiny valid circuit and caught.
@@ -488,6 +493,8 @@ pub struct Obs {
     pub damaged_values: Vec<u64>,
     pub summary: String,
     pub accepted_damaged: bool,
+    /// every circuit value this receiver deserialised (not huge ones), and whether it is honest
+    pub plain_values: Vec<(CircuitType, bool)>,
 }
 
 fn bump(c: &mut BTreeMap<String, u64>, k: &str) {
@@ -1072,9 +1079,17 @@ fn reg_is_huge(c: &rc::Circuit) -> bool {
 
 fn receive(w: &World, ch: Channel, msg: &[u8], honest: bool, orig_hash: Option<u64>, obs: &mut Obs, seedtag: u64) {
     let mut note = |obs: &mut Obs, c: &CircuitType| {
-        let h = value_hash(matches!(c, CircuitType::Register(_)) as u8, &flatten(c));
+        let flat = flatten(c);
+        let h = value_hash(matches!(c, CircuitType::Register(_)) as u8, &flat);
         if Some(h) != orig_hash {
             obs.damaged_values.push(h);
+        }
+        let huge = match c {
+            CircuitType::Ssa(c) => ssa_is_huge(c) || !small_inputs(&c.input_gates),
+            CircuitType::Register(c) => reg_is_huge(c) || !small_inputs(&c.input_regs) || c.max_reg_count > (1 << 24),
+        };
+        if flat.len() <= 4000 && ch != Channel::Bristol && !huge {
+            obs.plain_values.push((c.clone(), honest));
         }
     };
     match ch {
@@ -1441,6 +1456,147 @@ struct Acc {
     seen: BTreeSet<String>,
     pending: Vec<(World, Finding, Vec<World>)>,
     last_summary: String,
+    /// values waiting for the differently built receiver (one child per case), deduplicated
+    plain_queue: Vec<(World, CircuitType, bool)>,
+    plain_seen: BTreeSet<u64>,
+}
+
+const PLAIN_CAP: usize = 3000;
+
+fn plain_line(ct: &CircuitType) -> String {
+    let mut l = String::from(if matches!(ct, CircuitType::Register(_)) { "R" } else { "S" });
+    for x in flatten(ct) {
+        l.push(' ');
+        l.push_str(&x.to_string());
+    }
+    l.push('\n');
+    l
+}
+
+/// Hand circuit values to the receiver built with default features in release mode and judge what
+/// it reports: accepted there => safe (independent reference) and eval there neither panics nor
+/// dies nor returns another number of bits; an honest value accepted by this build is accepted there.
+fn judge_plain(items: &[(World, CircuitType, bool)], counters: &mut BTreeMap<String, u64>) -> Vec<(usize, Finding)> {
+    use std::io::Write;
+    let mut out = vec![];
+    let Some(exe) = std::env::var("VERIF_PLAIN_BIN").ok().map(std::path::PathBuf::from).filter(|p| p.exists()) else {
+        *counters.entry("plain_receiver_unavailable".into()).or_insert(0) += items.len() as u64;
+        return out;
+    };
+    let mut from = 0usize;
+    let mut spawns = 0;
+    while from < items.len() && spawns < 50 {
+        spawns += 1;
+        let mut cmd = std::process::Command::new(&exe);
+        cmd.stdin(std::process::Stdio::piped()).stdout(std::process::Stdio::piped()).stderr(std::process::Stdio::null());
+        unsafe {
+            use std::os::unix::process::CommandExt;
+            cmd.pre_exec(|| {
+                let cpu = libc::rlimit { rlim_cur: 60, rlim_max: 60 };
+                libc::setrlimit(libc::RLIMIT_CPU, &cpu);
+                let mem = libc::rlimit { rlim_cur: 2 << 30, rlim_max: 2 << 30 };
+                libc::setrlimit(libc::RLIMIT_AS, &mem);
+                let z = libc::rlimit { rlim_cur: 0, rlim_max: 0 };
+                libc::setrlimit(libc::RLIMIT_CORE, &z);
+                Ok(())
+            });
+        }
+        let Ok(mut child) = cmd.spawn() else {
+            return out;
+        };
+        let mut stdin = child.stdin.take().unwrap();
+        let lines: Vec<String> = items[from..].iter().map(|(_, ct, _)| plain_line(ct)).collect();
+        let writer = std::thread::spawn(move || {
+            for l in lines {
+                if stdin.write_all(l.as_bytes()).is_err() {
+                    break;
+                }
+            }
+        });
+        let Ok(res) = child.wait_with_output() else { return out };
+        let _ = writer.join();
+        let text = String::from_utf8_lossy(&res.stdout).to_string();
+        // per value: verdict, eval lines, done?
+        let mut last_begun: Option<usize> = None;
+        let mut done: BTreeSet<usize> = BTreeSet::new();
+        let mut verdict: BTreeMap<usize, String> = BTreeMap::new();
+        let mut evals: BTreeMap<usize, Vec<String>> = BTreeMap::new();
+        for l in text.lines() {
+            let mut it = l.splitn(3, ' ');
+            let (tag, idx, rest) = (it.next().unwrap_or(""), it.next().and_then(|x| x.parse::<usize>().ok()), it.next().unwrap_or(""));
+            let Some(i) = idx else { continue };
+            match tag {
+                "B" => last_begun = Some(i),
+                "A" => {
+                    verdict.insert(i, rest.to_string());
+                }
+                "E" => evals.entry(i).or_default().push(rest.to_string()),
+                "D" => {
+                    done.insert(i);
+                }
+                _ => {}
+            }
+        }
+        let n_here = items.len() - from;
+        let upto = match last_begun {
+            Some(i) if !done.contains(&i) => i + 1, // died while handling value i
+            _ => n_here,
+        };
+        for i in 0..upto.min(n_here) {
+            let (_, ct, honest) = &items[from + i];
+            *counters.entry("plain_build_values_checked".into()).or_insert(0) += 1;
+            let kind = if matches!(ct, CircuitType::Register(_)) { "reg" } else { "ssa" };
+            let accepted_there = verdict.get(&i).map(|v| v == "1").unwrap_or(false);
+            let died = !done.contains(&i);
+            let accepted_here = match ct {
+                CircuitType::Ssa(c) => matches!(guarded(|| c.validate()), Ok(Ok(()))),
+                CircuitType::Register(c) => matches!(guarded(|| c.validate()), Ok(Ok(()))),
+            };
+            if accepted_there {
+                *counters.entry("plain_build_accepted".into()).or_insert(0) += 1;
+                let unsafe_ = match ct {
+                    CircuitType::Ssa(c) => circ_ref::unsafe_ssa(c),
+                    CircuitType::Register(c) => circ_ref::unsafe_reg(c),
+                };
+                if let Some((code, why)) = unsafe_ {
+                    out.push((from + i, Finding {
+                        class: "validate_accepts_unsafe".into(),
+                        signature: format!("validate_accepts_unsafe:{code}:default_features_release_build"),
+                        what: format!("{kind} validate() of a receiver built with default cargo features in release mode accepted a circuit that is not safe to evaluate: {why}"),
+                    }));
+                    continue;
+                }
+                let ev = evals.get(&i).cloned().unwrap_or_default();
+                if let Some(p) = ev.iter().find_map(|e| e.strip_prefix("panic ")) {
+                    out.push((from + i, Finding {
+                        class: "eval_panicked".into(),
+                        signature: format!("eval_panicked:{kind}:default_features_release_build"),
+                        what: format!("validate() accepted the {kind} circuit in a receiver built with default cargo features in release mode, but eval() on inputs of the declared shape panicked there: {p}"),
+                    }));
+                } else if ev.iter().any(|e| e.strip_prefix("ok ").map(|r| { let mut t = r.split(' '); t.next() != t.next() }).unwrap_or(false)) {
+                    out.push((from + i, Finding {
+                        class: "eval_wrong_output_count".into(),
+                        signature: format!("eval_wrong_output_count:{kind}:default_features_release_build"),
+                        what: "eval returned a different number of bits than declared outputs (receiver built with default cargo features in release mode)".into(),
+                    }));
+                } else if died {
+                    out.push((from + i, Finding {
+                        class: "eval_panicked".into(),
+                        signature: format!("eval_aborted:{kind}:default_features_release_build"),
+                        what: format!("validate() accepted the {kind} circuit in a receiver built with default cargo features in release mode, then that process died inside eval() ({})", res.status),
+                    }));
+                }
+            } else if *honest && accepted_here {
+                out.push((from + i, Finding {
+                    class: "validate_rejects_honest".into(),
+                    signature: format!("validate_rejects_honest:{kind}:default_features_release_build"),
+                    what: format!("a circuit produced by the compiler/converter is accepted by this build's validate() but not by a receiver built with default cargo features in release mode (verdict there: {:?}, process {})", verdict.get(&i), if died { "died" } else { "alive" }),
+                }));
+            }
+        }
+        from += upto.min(n_here).max(1);
+    }
+    out
 }
 
 fn absorb(o: &Obs, w: &World, acc: &mut Acc) {
@@ -1465,6 +1621,15 @@ fn absorb(o: &Obs, w: &World, acc: &mut Acc) {
         }
     }
     acc.last_summary = o.summary.clone();
+    for (ct, honest) in &o.plain_values {
+        if acc.plain_queue.len() >= PLAIN_CAP {
+            break;
+        }
+        let h = value_hash(matches!(ct, CircuitType::Register(_)) as u8 + 2 * (*honest as u8), &flatten(ct));
+        if acc.plain_seen.insert(h) {
+            acc.plain_queue.push((World { prior: vec![], plain_build: true, ..w.clone() }, ct.clone(), *honest));
+        }
+    }
 }
 
 /// Absorb a batch that ran on ONE receiver thread: a finding's history is the part of the batch
@@ -1806,7 +1971,7 @@ pub fn stream_len(family: &str) -> usize {
 
 fn draw_world(plan: &CasePlan, family: &str, idx: u64, keys: Keys, p: &mut Prng) -> World {
     let dedup = p.chance(3, 4);
-    let mut w = World { program: None, dedup, keys, channel: Channel::JsonSsa, faults: vec![], raw_message: None, prior: vec![], no_threads: false, threads_refused_after: None, env_flip: vec![], stdio_broken: None, misuse_before: None, stack_kib: None };
+    let mut w = World { program: None, dedup, keys, channel: Channel::JsonSsa, faults: vec![], raw_message: None, prior: vec![], no_threads: false, threads_refused_after: None, env_flip: vec![], stdio_broken: None, misuse_before: None, stack_kib: None, plain_build: false };
     match family {
         "honest" => {
             // compiler / converter outputs must be accepted (fault-free channel)
@@ -1864,6 +2029,10 @@ fn has_class(o: &Obs, class: &str) -> Option<Finding> {
 }
 
 pub fn minimise(w: &World, f: &Finding, history: &[World]) -> (World, Finding) {
+    if w.plain_build || w.stack_kib.is_some() || !w.env_flip.is_empty() {
+        // worlds that need a process of their own (another build, a small stack, another environment)
+        return (w.clone(), f.clone());
+    }
     let class = f.class.clone();
     let mut best = w.clone();
     let mut bf = f.clone();
@@ -1953,6 +2122,12 @@ pub fn replay_json(w: &World, f: &Finding, seed: u64, idx: Option<u64>) -> serde
 
 pub fn replay(v: &serde_json::Value) -> Result<Vec<Finding>, String> {
     let w: World = serde_json::from_value(v["world"].clone()).map_err(|e| format!("bad replay file: {e}"))?;
+    if w.plain_build {
+        let o = run_world(&World { plain_build: false, ..w.clone() });
+        let items: Vec<(World, CircuitType, bool)> = o.plain_values.iter().map(|(ct, h)| (w.clone(), ct.clone(), *h)).collect();
+        let mut c = BTreeMap::new();
+        return Ok(judge_plain(&items, &mut c).into_iter().map(|(_, f)| f).collect());
+    }
     if w.stack_kib.is_some() || !w.env_flip.is_empty() {
         // dimensions of the receiving PROCESS (its environment, the stack of the calling thread):
         // such a world runs in a child process of its own, as it did when it was found
@@ -1975,6 +2150,8 @@ pub fn run_case(plan: &CasePlan, seed: u64, idx: u64) -> CaseResult {
         seen: BTreeSet::new(),
         pending: vec![],
         last_summary: String::new(),
+        plain_queue: vec![],
+        plain_seen: BTreeSet::new(),
     };
     acc.d.u64(idx);
     acc.d.str(&serde_json::to_string(&w).unwrap());
@@ -2032,6 +2209,13 @@ pub fn run_case(plan: &CasePlan, seed: u64, idx: u64) -> CaseResult {
             huge_via_child(&w2, if ch == Channel::JsonSsa { "ssa" } else { "reg" }, &mut o);
             bump(&mut o.counters, "small_stack_receivers");
             absorb(&o, &w2, &mut acc);
+        }
+    }
+    // the differently built receiver (default cargo features, release): one child for the case
+    let queue = std::mem::take(&mut acc.plain_queue);
+    for (j, f) in judge_plain(&queue, &mut acc.counters) {
+        if acc.seen.insert(f.signature.clone()) {
+            acc.pending.push((queue[j].0.clone(), f, vec![]));
         }
     }
     acc.d.u64(p.draws);
